@@ -102,27 +102,28 @@ class BuildLock:
         self.f.close()
 
 
-def build_driver():
-    """(re)build the extracted model and the OCaml driver if any model/dispatch source changed.
-    Depends on Model/ and Extract/ only, so the model still runs when a proof is broken."""
+def build_driver(pid):
+    """(re)build the extracted model of property [pid] and its OCaml driver if a source changed.
+    Depends on Model/ and Extract/D_<pid>.v only, so the model still runs when a proof is broken."""
     with BuildLock():
-        rc, out = sh(f"{VERIF}/tools/gen_coqproject.sh && timeout 1500 make -j16 Extract/Extract.vo", cwd=COQ)
+        rc, out = sh(f"{VERIF}/tools/gen_coqproject.sh && timeout 1500 make -j16 Extract/X_{pid}.vo", cwd=COQ)
         if rc != 0:
             return False, out
-        drv = os.path.join(BUILD, "driver")
-        ml = os.path.join(VERIF, "ocaml", "model.ml")
+        d = os.path.join(BUILD, "ml", pid)
+        drv = os.path.join(BUILD, f"driver_{pid}")
+        ml = os.path.join(d, "model.ml")
         src = os.path.join(VERIF, "ocaml", "driver.ml")
         if (not os.path.exists(drv)) or os.path.getmtime(drv) < max(os.path.getmtime(ml), os.path.getmtime(src)):
-            rc, out2 = sh("ocamlfind ocamlopt -O2 -w -a model.mli model.ml driver.ml -o ../build/driver",
-                          cwd=os.path.join(VERIF, "ocaml"), timeout=600)
+            rc, out2 = sh(f"cp {src} driver.ml && ocamlfind ocamlopt -O2 -w -a model.mli model.ml driver.ml -o {drv}",
+                          cwd=d, timeout=900)
             if rc != 0:
                 return False, out2
         return True, out
 
 
-def run_model(lines, shards=8):
-    """feed protocol lines to the extracted model; returns parsed results (same order)"""
-    drv = os.path.join(BUILD, "driver")
+def run_model(pid, lines, shards=8):
+    """feed protocol lines to the extracted model of [pid]; returns parsed results (same order)"""
+    drv = os.path.join(BUILD, f"driver_{pid}")
     if not lines:
         return []
     n = len(lines)
@@ -252,10 +253,14 @@ def prove(pid):
 
 # ---------------------------------------------------------------- known findings
 def load_findings():
-    p = os.path.join(VERIF, "known_findings.json")
-    if not os.path.exists(p):
-        return []
-    return json.load(open(p))["findings"]
+    """known_findings.json (committed; never written at run time): kind=known entries suppress exactly their signature,
+    kind=fixed entries suppress nothing."""
+    import glob
+    out = []
+    for p in [os.path.join(VERIF, "known_findings.json")] + sorted(glob.glob(os.path.join(VERIF, "findings.d", "*.json"))):
+        if os.path.exists(p):
+            out.extend(json.load(open(p))["findings"])
+    return out
 
 
 # ---------------------------------------------------------------- a run
@@ -299,11 +304,14 @@ class Run:
         return self.proof
 
     def step_driver(self):
-        ok, out = build_driver()
+        ok, out = build_driver(self.pid)
         if not ok:
             m = re.search(r'File "\./([^"]+)", line (\d+)', out)
             self.broken.append("model/extraction does not build: " + (out[m.start():][:800] if m else out[-800:]))
         return ok
+
+    def model(self, lines, shards=8):
+        return run_model(self.pid, lines, shards)
 
     def mismatch(self, label, case, impl, model):
         self.mismatches.append((label, case, impl, model))
